@@ -2,6 +2,7 @@ import RlibModel.Lemmas.F80
 import RlibModel.Lemmas.F80Soft
 import RlibModel.Lemmas.F80Round
 import RlibModel.Lemmas.F80Encode
+import RlibModel.Lemmas.F80Exact
 /-!
 # C18 — f80 arithmetic correctly rounded; comparisons follow IEEE order
 
@@ -17,6 +18,12 @@ Part 2: the executable soft-float that defines "correctly rounded" (`roundPos`, 
 ofF64 toF64`) really is round-to-nearest-even: nearest / half an ulp, ties to even, monotone, exact and
 idempotent on representable values, overflow exactly at `2^(emax+1)`, full precision unless subnormal; and
 `f64 → f80 → f64` is the identity on every non-NaN binary64 pattern.
+
+Part 3: the arithmetic is "the exact real result rounded once": `roundRat f z q` rounds the rational number `q`
+(`roundRat_spec`: sign, within half a quantum of `q`, precision, overflow); `add_exact … div_exact`, `toF64_exact`: the
+model's class-level operations are `roundRat` of the exact rational sum / difference / product / quotient / value, with
+the IEEE sign of an exact zero; `*_special`: the ∞/NaN tables; `add_bits_exact …`: the same for the decoded result bytes;
+`spec_add_eq …`: the independent fraction-arithmetic specification printed by the driver as `S` equals the model (`M`).
 
 What the FPU instructions themselves do (`fcomi`/`fucomi` flag outcome, `fadd` … `fstp`) is *modelled*
 (by `fcomi`, `add` …) and compared with the hardware on every check; it is not verified here.
@@ -255,6 +262,99 @@ theorem toF64_correct (a : F80) : Class.same (classify64 (toF64 a)) (roundClass 
 theorem ofF64_exact (x : F64) (hE : x.exp ≤ 2047) (hF : x.frac < two52) :
     Class.same (classify (ofF64 x)) (classify64 x) := ofF64_decode x hE hF
 
+/-! ## Part 3 — the arithmetic is the exact rational result, rounded once -/
+
+/-- What "`q` correctly rounded to format `f`" (`roundRat`) is, for `q ≠ 0`: never NaN; a finite result has the sign of
+    `q`, differs from `q` by at most half the quantum of `q`'s binade, has at most `p` significant bits (exactly `p` unless
+    subnormal); it is `±∞` exactly when the nearest-even value with unbounded exponent reaches `2^(emax+1)`.
+    (Ties-to-even, monotonicity, idempotence: `round_ties_even`, `round_mono`, `round_idempotent` above — `roundRat` calls
+    the same `roundPos`, and `roundPos_congr` shows the result does not depend on how `q` is written.) -/
+theorem roundRat_correct (f : Fmt) (z : Bool) (q : ℚ) (hq : q ≠ 0) (hp : 1 ≤ f.p) (hqm : f.qmin ≤ f.emax) :
+    match roundRat f z q with
+    | .nan => False
+    | .inf s => s = decide (q < 0) ∧ (2 : ℚ) ^ (f.emax + 1) ≤ roundVal f q.num.natAbs q.den 0
+    | .fin d => d.neg = decide (q < 0) ∧ |q - d.toQ| ≤ 2 ^ d.e / 2 ∧
+        d.e = quantum f (ilog2q q.num.natAbs q.den 0) ∧ d.m ≤ 2 ^ f.p ∧ (f.qmin < d.e → 2 ^ (f.p - 1) ≤ d.m) :=
+  roundRat_spec f z q hq hp hqm
+
+/-- An exact zero result is a zero with the sign the operation prescribes. -/
+theorem roundRat_of_zero (f : Fmt) (z : Bool) : roundRat f z 0 = .fin ⟨z, 0, 0⟩ := roundRat_zero f z
+
+/-- The rounding does not depend on the representation `n/d * 2^e` of the value. -/
+theorem round_value_only (f : Fmt) (n d n' d' : Nat) (e e' : Int) (hn : 0 < n) (hd : 0 < d) (hn' : 0 < n') (hd' : 0 < d')
+    (h : valQ n d e = valQ n' d' e') : roundPos f n d e = roundPos f n' d' e' := roundPos_congr f n d n' d' e e' hn hd hn' hd' h
+
+/-- Finite + finite: the exact rational sum rounded once; an exact zero sum is `-0` only if both operands are negative. -/
+theorem add_exact (f : Fmt) (x y : Dy) : addC f (.fin x) (.fin y) = roundRat f (x.neg && y.neg) (x.toQ + y.toQ) := addC_exact f x y
+/-- Finite − finite: the exact rational difference rounded once (`x - x = +0`, `-0 - +0 = -0`). -/
+theorem sub_exact (f : Fmt) (x y : Dy) : subC f (.fin x) (.fin y) = roundRat f (x.neg && !y.neg) (x.toQ - y.toQ) := subC_exact f x y
+/-- Finite × finite: the exact rational product rounded once; sign (also of a zero) = xor of the signs. -/
+theorem mul_exact (f : Fmt) (x y : Dy) : mulC f (.fin x) (.fin y) = roundRat f (x.neg != y.neg) (x.toQ * y.toQ) := mulC_exact f x y
+/-- Finite ÷ finite non-zero: the exact rational quotient rounded once; sign (also of a zero) = xor of the signs. -/
+theorem div_exact (f : Fmt) (x y : Dy) (hy : y.m ≠ 0) :
+    divC f (.fin x) (.fin y) = roundRat f (x.neg != y.neg) (x.toQ / y.toQ) := divC_exact f x y hy
+/-- Conversion to a narrower format (f80 → f64): the operand's value rounded once, a zero keeps its sign. -/
+theorem toF64_exact (f : Fmt) (x : Dy) : roundClass f (.fin x) = roundRat f x.neg x.toQ := roundClass_exact f x
+
+/-- The special-value table of `+` (IEEE 754 / x87 with masked exceptions). -/
+theorem add_special (f : Fmt) (a b : Class) (s t : Bool) (x : Dy) :
+    addC f .nan b = .nan ∧ addC f a .nan = .nan ∧
+    addC f (.inf s) (.inf s) = .inf s ∧ addC f (.inf s) (.inf (!s)) = .nan ∧
+    addC f (.inf s) (.fin x) = .inf s ∧ addC f (.fin x) (.inf t) = .inf t := by
+  refine ⟨by cases b <;> rfl, by cases a <;> rfl, by simp [addC], by cases s <;> simp [addC], rfl, rfl⟩
+
+/-- The special-value table of `*`: `0 × ∞` is invalid. -/
+theorem mul_special (f : Fmt) (a b : Class) (s t : Bool) (x : Dy) :
+    mulC f .nan b = .nan ∧ mulC f a .nan = .nan ∧ mulC f (.inf s) (.inf t) = .inf (s != t) ∧
+    mulC f (.inf s) (.fin x) = (if x.m = 0 then .nan else .inf (s != x.neg)) ∧
+    mulC f (.fin x) (.inf t) = (if x.m = 0 then .nan else .inf (x.neg != t)) := by
+  refine ⟨by cases b <;> rfl, by cases a <;> rfl, rfl, rfl, rfl⟩
+
+/-- The special-value table of `/`: `∞/∞` and `0/0` are invalid, `x/0 = ±∞`, `x/∞ = ±0`, `∞/x = ±∞`. -/
+theorem div_special (f : Fmt) (a b : Class) (s t : Bool) (x y : Dy) (hy : y.m = 0) :
+    divC f .nan b = .nan ∧ divC f a .nan = .nan ∧ divC f (.inf s) (.inf t) = .nan ∧
+    divC f (.inf s) (.fin x) = .inf (s != x.neg) ∧ divC f (.fin x) (.inf t) = .fin ⟨x.neg != t, 0, 0⟩ ∧
+    divC f (.fin x) (.fin y) = (if x.m = 0 then .nan else .inf (x.neg != y.neg)) := by
+  refine ⟨by cases b <;> rfl, by cases a <;> rfl, rfl, rfl, rfl, by simp [divC, hy]⟩
+
+/-- Bits: for finite operands, decoding the ten result bytes of `a + b` gives (same class, sign, value) the exact rational
+    sum of the operands' values rounded once to the x87 format — overflow to ±∞, gradual underflow and the sign of an exact
+    zero included.  Likewise `-`, `*`, `/` and the conversion to binary64. -/
+theorem add_bits_exact (a b : F80) (x y : Dy) (ha : classify a = .fin x) (hb : classify b = .fin y) :
+    Class.same (classify (add a b)) (roundRat fmt80 (x.neg && y.neg) (x.toQ + y.toQ)) := by
+  have h := add_correct a b; rwa [ha, hb, add_exact] at h
+theorem sub_bits_exact (a b : F80) (x y : Dy) (ha : classify a = .fin x) (hb : classify b = .fin y) :
+    Class.same (classify (sub a b)) (roundRat fmt80 (x.neg && !y.neg) (x.toQ - y.toQ)) := by
+  have h := sub_correct a b; rwa [ha, hb, sub_exact] at h
+theorem mul_bits_exact (a b : F80) (x y : Dy) (ha : classify a = .fin x) (hb : classify b = .fin y) :
+    Class.same (classify (mul a b)) (roundRat fmt80 (x.neg != y.neg) (x.toQ * y.toQ)) := by
+  have h := mul_correct a b; rwa [ha, hb, mul_exact] at h
+theorem div_bits_exact (a b : F80) (x y : Dy) (ha : classify a = .fin x) (hb : classify b = .fin y) (hy : y.m ≠ 0) :
+    Class.same (classify (div a b)) (roundRat fmt80 (x.neg != y.neg) (x.toQ / y.toQ)) := by
+  have h := div_correct a b; rwa [ha, hb, div_exact _ _ _ hy] at h
+theorem toF64_bits_exact (a : F80) (x : Dy) (ha : classify a = .fin x) :
+    Class.same (classify64 (toF64 a)) (roundRat fmt64 x.neg x.toQ) := by
+  have h := toF64_correct a; rwa [ha, toF64_exact] at h
+
+/-- The driver's `S` for arithmetic — ordinary fraction arithmetic on the decoded operands, one call of the specification
+    rounding (`Model/F80Exact.lean`) — equals its `M`, the bit-level model, for every pair of bit patterns. -/
+theorem spec_add_eq (a b : F80) : specAdd a b = add a b := by unfold specAdd add; rw [specAddC_eq]
+theorem spec_sub_eq (a b : F80) : specSub a b = sub a b := by unfold specSub sub; rw [specSubC_eq]
+theorem spec_mul_eq (a b : F80) : specMul a b = mul a b := by unfold specMul mul; rw [specMulC_eq]
+theorem spec_div_eq (a b : F80) : specDiv a b = div a b := by unfold specDiv div; rw [specDivC_eq]
+theorem spec_toF64_eq (a : F80) : specToF64 a = toF64 a := by unfold specToF64 toF64; rw [specRoundClass_eq]
+theorem spec_ofF64_eq (x : F64) : specOfF64 x = ofF64 x := by unfold specOfF64 ofF64; rw [specRoundClass_eq]
+
+/-- NaN half of the f64 round trip: a NaN stays a NaN (the model, like the comparison of results, does not track NaN
+    payloads or the quieting of a signalling NaN; "identity" for NaN means NaN-ness). -/
+theorem f64_roundtrip_nan (x : F64) (hn : isNaN64 x = true) : isNaN64 (toF64 (ofF64 x)) = true := by
+  have hc : classify64 x = .nan := by
+    unfold isNaN64 at hn
+    cases h : classify64 x <;> simp_all
+  unfold toF64 ofF64
+  rw [hc]
+  decide
+
 /-! non-vacuity / the former counterexamples (F7), evaluated on the model -/
 -- NaN <= 1.0 is false, partial_cmp(NaN, 1.0) = None
 example : le ⟨false, 0x7FFF, 0xC000000000000000⟩ one = false := by decide
@@ -279,5 +379,13 @@ example : roundPos fmt64 1 10 0 = .fin 0x1999999999999A (-56) := by decide
 example : roundPos fmt64 9007199254740993 1 0 = .fin 4503599627370496 1 := by decide
 -- overflow and gradual underflow
 example : roundPos fmt64 1 1 1024 = .ovf ∧ roundPos fmt64 3 1 (-1076) = .fin 1 (-1074) ∧ roundPos fmt64 1 1 (-1075) = .fin 0 (-1074) := by decide
+
+-- exact arithmetic: 1/3 (inexact, nonzero quotient: hypotheses of div_exact / roundRat_correct are satisfiable),
+-- 2^16383 * 2 overflows to +∞, smallest denormal / 2 underflows to +0 (tie to even), (-1) + 1 = +0, (-0) + (-0) = -0
+example : div one ⟨false, 0x4000, 0xC000000000000000⟩ = ⟨false, 0x3FFD, 0xAAAAAAAAAAAAAAAB⟩ := by decide
+example : mul ⟨false, 0x7FFE, two63⟩ ⟨false, 0x4000, two63⟩ = ⟨false, 0x7FFF, two63⟩ := by decide
+example : mul ⟨false, 0, 1⟩ ⟨false, 0x3FFE, two63⟩ = ⟨false, 0, 0⟩ ∧ mul ⟨false, 0, 3⟩ ⟨false, 0x3FFE, two63⟩ = ⟨false, 0, 2⟩ := by decide
+example : add (neg one) one = ⟨false, 0, 0⟩ ∧ add ⟨true, 0, 0⟩ ⟨true, 0, 0⟩ = ⟨true, 0, 0⟩ ∧ sub ⟨true, 0, 0⟩ zero = ⟨true, 0, 0⟩ := by decide
+example : specDiv one ⟨false, 0x4000, 0xC000000000000000⟩ = ⟨false, 0x3FFD, 0xAAAAAAAAAAAAAAAB⟩ := by decide
 
 end Rlib.C18
